@@ -5,13 +5,13 @@ import random
 from harness.lib import hx, zl, cz, cbool, clist
 
 ID = 'C13'
-RULE = ('one case = one public call (get_kmers / get_minimizers / match_string / get_motif_scores / count_kmers flat and '
-        'per row / KmerEncoding.encode+to_string) on a ragged list of sequences; every tuple of row lengths of the small '
+RULE = ('one case = one public call (get_kmers / get_minimizers / match_string / get_motif_scores with an integer-valued and with a '
+        'real-valued matrix / count_kmers flat and per row / KmerEncoding.encode+to_string) on a ragged list of sequences; every tuple of row lengths of the small '
         'grid x every window length with total letters >= window (exhaustive over lengths, letters random), plus rows of '
         'length w-1, w, w+1, empty rows, a short last row, windows up to 31 and flat data crossing the 32-letter '
         'register border of the bit-packed path; the collection is a freshly built array or a non-contiguous VIEW of a larger '
         'one (rows sliced off, boolean mask, reordering, first column trimmed), a single sequence as a 1-d array, or '
-        'equal-length sequences as a 2-d array; non-trivial = at least two rows and at least one row holds a window')
+        'equal-length sequences as a 2-d array (encoded, and un-encoded for get_kmers / match_string / get_motif_scores); non-trivial = at least two rows and at least one row holds a window')
 EXHAUSTIVE = {'quick': False, 'thorough': False}
 TIE = 'translator+correspondence'
 TIE_DETAIL = ('translator: translate/gen_c13.py regenerates Gen/C13.v (17 definitions: the column-slice bound at the four trim sites, '
@@ -19,24 +19,28 @@ TIE_DETAIL = ('translator: translate/gen_c13.py regenerates Gen/C13.v (17 defini
               'bounds) and Bridge/C13.v + Props.C13_source_tie re-prove them equal to the model helpers on every run; '
               'correspondence: Model.C13 rolling / get_kmers incl. the uint64 register model / get_minimizers / match_string / '
               'get_motif_scores / count_kmers / encode / to_string evaluated in Coq on the same rows')
-ASSUMPTIONS = ['domain of the property: letters of the alphabet only, 1 <= k <= window <= 31, total letters >= window, |A|^k < 2^63 '
-               '(int64 wrap-around is outside the property and not modelled)',
-               'motif matrices have small integer entries, so float accumulation is exact and scores are compared as integers; '
-               'the log/pseudo-count arithmetic of PWM.from_dict/from_counts is not part of the check',
-               'count_kmers is observed where |A|^k <= 300 (its label list is built for every possible k-mer)']
-PARTIAL = ['C13_*_partial (rolling_row_local, get_kmers, get_minimizers, match_string, motif_scores, count_kmers, '
-           'model_agrees_implies_property): about the code at /repo HEAD (column slice stop = -w+1); they hold for window >= 2 '
-           '(minimizers: k >= 2). Window 1 is refuted for that code (C13_rolling_window1_refuted, C13_get_kmers_window1_refuted, '
-           'C13_get_minimizers_k1_refuted; known finding C13-window1-trim) and is covered by the un-suffixed theorems, which are '
-           'about the repaired slice (-w+1) or None of notes/C13.fix-1.diff',
+ASSUMPTIONS = ['domain of the property: distinct alphabet letters, letters of the alphabet only, 1 <= k <= window <= 31, total letters >= window, '
+               '|A|^k < 2^63 (int64 wrap-around is outside the property and not modelled)',
+               'motif scores: exact theorems over integers and over exact rationals (C13_motif_scores, C13_motif_scores_rational); the check '
+               'compares integer-valued float matrices exactly (op motif) and real-valued matrices from PWM.from_counts with a tolerance of '
+               'w+1 units of 2^-20 (op motif_real, a labelled float TEST: float rounding itself is under no theorem)',
+               'count_kmers is observed where |A|^k <= 300 (its label list is built for every possible k-mer)',
+               'rolling_window(mode="same"), RegexMatcher / match_regexp and get_motif_scores_old are not reachable from the observed API '
+               '(get_kmers, get_minimizers, match_string, get_motif_scores, count_kmers, KmerEncoding.encode/to_string) and are outside the check']
+PARTIAL = ['C13_model_agrees_implies_property_dense_partial: for equal-length sequences handed over as a dense 2-d array the link model_ok -> spec_ok '
+           'excludes get_motif_scores on a 2-d array and get_kmers on an un-encoded 2-d array, which at /repo HEAD treat the array as one row '
+           '(C13_dense_routes_refuted; findings C13-motif-2d-flat, C13-kmers-unencoded-2d-flat; repairs notes/C13.fix-2.diff, fix-3.diff). '
+           'For ragged collections (the property quantifier) C13_model_agrees_implies_property is full strength: every window >= 1, all operations',
+           'C13_*_partial about stop_pinned (the column slice before /repo c9f70fe) are history: window >= 2; the code now in /repo is stop_fixed '
+           '(bridged from the source by C13_source_tie) and is covered for every window >= 1 by the un-suffixed theorems',
            'npstructures (ragged column slice, BitArray.pack/sliding_window) is modelled from its source, not verified; '
-           'C13_packed_eq_generic is about that register-level model, tied to the installed library by the correspondence only',
-           'motif scores are proved over exact integers; float rounding of real-valued matrices is outside the theorems']
+           'C13_packed_eq_generic is about that register-level model, tied to the installed library by the correspondence only']
 PER_FILE = 40
 
 ALPHS = [('dna', 'ACGT'), ('custom', 'ACGTN'), ('custom', 'ACTG'), ('amino', 'ACDEFGHIKLMNPQRSTVWY*'),
          ('dna', 'ACGT'), ('custom', 'ACG'), ('custom', 'AC')]
-OPS = ['kmers', 'minimizers', 'match', 'motif', 'count', 'count_rows', 'codec']
+OPS = ['kmers', 'minimizers', 'match', 'motif', 'count', 'count_rows', 'codec', 'motif_real']
+SCALE = 2 ** 20          # motif_real: scores and matrix entries are handed to Coq as round(x * SCALE)
 KMAX = {2: 31, 3: 31, 4: 31, 5: 27, 21: 14}          # |A|^k < 2^63
 
 
@@ -61,13 +65,19 @@ def _mk(rng, op, enc, alpha, lens, w, k=None, ascii_in=False, low_entropy=False,
             case['pat'] = ''.join(rng.choice(letters) for _ in range(w))
     if op == 'motif':
         case['cols'] = [[rng.randint(-40, 40) for _ in range(n)] for _ in range(w)]
+    if op == 'motif_real':
+        # position counts; the matrix is PWM.from_counts(...) = log((c+1)/column sum): real-valued
+        case['counts'] = [[rng.randint(0, 30) for _ in range(n)] for _ in range(w)]
     if dense and op != 'codec' and len(rows) == 1:
         case['kind'] = 'single'            # one sequence handed over as a 1-d EncodedArray, not a ragged array
         return case
-    if dense and op in ('kmers', 'minimizers', 'match', 'count', 'count_rows') and not ascii_in \
-            and len(rows) >= 2 and len(set(lens)) == 1 and lens[0] >= 1:
-        case['kind'] = 'matrix'            # equal-length sequences handed over as a 2-d EncodedArray
-        return case
+    if dense and op != 'codec' and len(rows) >= 2 and len(set(lens)) == 1 and lens[0] >= 1:
+        if not ascii_in:
+            case['kind'] = 'matrix'        # equal-length sequences handed over as a 2-d EncodedArray
+            return case
+        if op in ('kmers', 'match', 'motif'):
+            case['kind'] = 'matrix_ascii'  # ... un-encoded
+            return case
     if view and op != 'codec':
         # the collection handed to the library is a non-contiguous VIEW of a larger one (a prior slicing /
         # filtering / reordering / column-trimming step); `rows` stays the content of that view
@@ -130,7 +140,7 @@ def generate(tier, seed):
                         enc, alpha = ('dna', 'ACGT') if w <= 4 else ('custom', 'AC')
                     if not _ok(op, len(alpha), w, sum(lens)):
                         continue
-                    ascii_in = (enc == 'dna' and op in ('kmers', 'match', 'motif') and (c // 7) % 2 == 0)
+                    ascii_in = (enc == 'dna' and op in ('kmers', 'match', 'motif', 'motif_real') and (c // 7) % 2 == 0)
                     cases.append(_mk(rng, op, enc, alpha, lens, w, ascii_in=ascii_in, low_entropy=(c % 5 == 0),
                                      view=(VIEWS[(c // 3) % len(VIEWS)] if c % 3 == 1 else None), dense=(c % 2 == 0)))
     # ---- boundary rows around the window, larger windows (up to 31), register borders of the packed path
@@ -159,7 +169,7 @@ def generate(tier, seed):
         k = None
         if op == 'minimizers':
             k = min(w, rng.choice([1, 2, w, max(1, w - 1), rng.randint(1, w)]))
-        cases.append(_mk(rng, op, enc, alpha, lens, w, k=k, ascii_in=(enc == 'dna' and op in ('kmers', 'match', 'motif') and j % 3 == 1),
+        cases.append(_mk(rng, op, enc, alpha, lens, w, k=k, ascii_in=(enc == 'dna' and op in ('kmers', 'match', 'motif', 'motif_real') and j % 3 == 1),
                          low_entropy=(i % 6 == 0), view=(VIEWS[(i // 2) % len(VIEWS)] if i % 2 == 1 else None), dense=(j % 5 == 2 or i % 4 == 0)))
     return cases
 
@@ -196,6 +206,13 @@ def _num(v):
     return int(v) if not isinstance(v, float) else int(f)
 
 
+def _real(v):
+    f = float(v)
+    if f != f or f in (float('inf'), float('-inf')):
+        return 10 ** 15           # a value no specification accepts
+    return int(round(f * SCALE))
+
+
 def observe(case):
     import numpy as np
     import bionumpy as bnp
@@ -214,6 +231,9 @@ def observe(case):
         if kind == 'matrix':
             rag = bnp.as_encoded_array(rows, enc)
             return EncodedArray(rag.raw().to_numpy_array(), enc)
+        if kind == 'matrix_ascii':
+            rag = bnp.as_encoded_array(rows)
+            return EncodedArray(rag.raw().to_numpy_array(), rag.encoding)
         if not case.get('view'):
             return bnp.as_encoded_array(rows) if case['ascii'] else bnp.as_encoded_array(rows, enc)
         parent = bnp.as_encoded_array(case['parent']) if case['ascii'] else bnp.as_encoded_array(case['parent'], enc)
@@ -240,7 +260,8 @@ def observe(case):
         if op == 'kmers':
             r = bnp.get_kmers(seqs, w)
             # the returned k-mers rendered back to text through their own encoding (str of each element)
-            texts = [str(x) for x in r] if kind == 'single' else [str(x) for row in r for x in row]
+            raw = r.raw()
+            texts = [str(x) for x in r] if (isinstance(raw, np.ndarray) and raw.ndim == 1) else [str(x) for row in r for x in row]
             return dict(out=[[_num(v) for v in row] for row in _ragged(r, nrows, kind)], labels=texts)
         if op == 'minimizers':
             r = bnp.get_minimizers(seqs, case['k'], w)
@@ -252,10 +273,16 @@ def observe(case):
             m = np.array(case['cols'], dtype=float).T.copy()          # alphabet x positions
             r = bnp.get_motif_scores(seqs, PWM(m, alpha))
             return dict(out=[[_num(v) for v in row] for row in _ragged(r, nrows, kind)])
+        if op == 'motif_real':
+            pwm = PWM.from_counts({ch: [col[i] for col in case['counts']] for i, ch in enumerate(alpha)})
+            r = bnp.get_motif_scores(seqs, pwm)
+            m = np.asarray(pwm._matrix, dtype=float)            # alphabet x positions, the matrix actually used
+            return dict(out=[[_real(v) for v in row] for row in _ragged(r, nrows, kind)],
+                        cols=[[_real(m[a, j]) for a in range(m.shape[0])] for j in range(m.shape[1])])
         if op in ('count', 'count_rows'):
             c = bnp.sequence.count_kmers(seqs, w) if op == 'count' else bnp.sequence.count_kmers(seqs, w, axis=-1)
             cnt = np.asarray(c.counts)
-            out = [[_num(v) for v in cnt]] if (op == 'count' or kind == 'single') else [[_num(v) for v in row] for row in cnt]
+            out = [[_num(v) for v in cnt]] if (op == 'count' or cnt.ndim == 1) else [[_num(v) for v in row] for row in cnt]
             return dict(out=out, labels=[str(s) for s in c.alphabet])
         if op == 'codec':
             ke = KmerEncoding(enc, w)
@@ -289,11 +316,13 @@ def to_coq(case, o):
     err = 'error' in o
     out = [] if err else o['out']
     labels = [] if err else o.get('labels', [])
-    return ('{| k_op := %s; k_alpha := %s; k_rows := %s; k_w := %s; k_k := %s; k_pat := %s; k_cols := %s; '
+    kind = {'matrix': 2, 'matrix_ascii': 3}.get(case.get('kind', 'ragged'), 0)
+    cols = o.get('cols', []) if OPS[case['op']] == 'motif_real' else case['cols']
+    return ('{| k_op := %s; k_kind := %s; k_alpha := %s; k_rows := %s; k_w := %s; k_k := %s; k_pat := %s; k_cols := %s; '
             'k_err := %s; k_out := %s; k_labels := %s |}' % (
-                cz(case['op']), hx(case['alpha'].encode()), clist([zl(_codes(case, r)) for r in case['rows']], '(list Z)'),
+                cz(case['op']), cz(kind), hx(case['alpha'].encode()), clist([zl(_codes(case, r)) for r in case['rows']], '(list Z)'),
                 cz(case['w']), cz(case['k']), zl(_codes(case, case['pat'])),
-                clist([zl(c) for c in case['cols']], '(list Z)'), cbool(err),
+                clist([zl(c) for c in cols], '(list Z)'), cbool(err),
                 clist([zl(r) for r in out], '(list Z)'), clist([hx(s.encode('latin1')) for s in labels], '(list Z)')))
 
 
@@ -326,12 +355,15 @@ def explain(case, o):
             'minimizers': 'bnp.get_minimizers(seqs, %d, %d)' % (case['k'], case['w']),
             'match': 'bnp.match_string(seqs, %r)' % case['pat'],
             'motif': 'bnp.get_motif_scores(seqs, PWM(np.array(%r, float).T, %r))' % (case['cols'], case['alpha']),
+            'motif_real': 'bnp.get_motif_scores(seqs, PWM.from_counts(dict(zip(%r, np.array(%r).T.tolist()))))  # compared with tolerance' % (case['alpha'], case.get('counts')),
             'count': 'bnp.sequence.count_kmers(seqs, %d)' % case['w'],
             'count_rows': 'bnp.sequence.count_kmers(seqs, %d, axis=-1)' % case['w'],
             'codec': 'KmerEncoding(enc, %d).encode / .to_string on every window' % case['w']}[op]
     enc = {'dna': 'bnp.DNAEncoding', 'amino': 'bnp.encodings.AminoAcidEncoding'}.get(case['enc'], 'AlphabetEncoding(%r)' % case['alpha'])
     if case.get('kind') == 'single':
         return 'seqs = bnp.as_encoded_array(%r%s)  # ONE sequence, 1-d; %s' % (case['rows'][0], '' if case['ascii'] else ', ' + enc, call)
+    if case.get('kind') == 'matrix_ascii':
+        return 'r = bnp.as_encoded_array(%r); seqs = EncodedArray(r.raw().to_numpy_array(), r.encoding)  # 2-d, un-encoded; %s' % (case['rows'], call)
     if case.get('kind') == 'matrix':
         return 'r = bnp.as_encoded_array(%r, %s); seqs = EncodedArray(r.raw().to_numpy_array(), r.encoding)  # 2-d; %s' % (case['rows'], enc, call)
     if case.get('view'):
@@ -369,11 +401,44 @@ def distribution(cases, obs):
     return d
 
 
-def finding(case, o):
-    """C13-window1-trim: the window is 1 (for minimizers: k = 1), and the answer is the signature of `[:0]`:
-    every row empty / every count zero / min() of an empty row raising ValueError."""
+def _flat_route(case, o):
+    """What the two dense routes of /repo HEAD return when they treat a 2-d array as ONE row — computed here only to
+    recognise exactly that failure mode (the verdicts themselves are computed in Coq)."""
     op = OPS[case['op']]
-    if op == 'codec':
+    alpha, w = case['alpha'], case['w']
+    flat = [alpha.index(ch) for r in case['rows'] for ch in r]
+    n = len(alpha)
+    starts = range(len(flat) - w + 1)
+    if op == 'kmers':
+        return ([[sum(flat[p + j] * n ** j for j in range(w)) for p in starts]],
+                [''.join(alpha[x] for x in flat[p:p + w]) for p in starts])
+    if op == 'motif':
+        return [[sum(case['cols'][j][flat[p + j]] for j in range(w)) for p in starts]], None
+    if op == 'motif_real':
+        return [[sum(o['cols'][j][flat[p + j]] for j in range(w)) for p in starts]], None
+    return None, None
+
+
+def finding(case, o):
+    """An id only for EXACTLY the listed failure mode (the observation is what the faithful model of that defect predicts):
+    C13-motif-2d-flat            get_motif_scores on a 2-d array of >= 2 rows returns the scores of the ravelled data as one row;
+    C13-kmers-unencoded-2d-flat  get_kmers on an un-encoded 2-d array of >= 2 rows returns the k-mers of the ravelled data as one row;
+    C13-window1-trim (fixed in /repo c9f70fe)  window 1: every row empty / every count zero / min() of an empty row."""
+    op = OPS[case['op']]
+    kind = case.get('kind', 'ragged')
+    if 'error' not in o and kind in ('matrix', 'matrix_ascii') and len(case['rows']) >= 2:
+        want, texts = _flat_route(case, o)
+        if op in ('motif', 'motif_real') and want is not None:
+            got = o['out']
+            if op == 'motif' and got == want:
+                return 'C13-motif-2d-flat'
+            if op == 'motif_real' and len(got) == 1 and len(got[0]) == len(want[0]) \
+                    and all(abs(a - b) <= case['w'] + 1 for a, b in zip(got[0], want[0])):
+                return 'C13-motif-2d-flat'
+            return None
+        if op == 'kmers' and kind == 'matrix_ascii':
+            return 'C13-kmers-unencoded-2d-flat' if (o['out'] == want and o.get('labels') == texts) else None
+    if op in ('codec', 'motif_real'):
         return None
     win = case['k'] if op == 'minimizers' else case['w']
     if win != 1:
@@ -392,7 +457,7 @@ def signature(case, o):
     op = OPS[case['op']]
     if 'error' in o:
         return 'error:' + o['error']
-    if op in ('kmers', 'minimizers', 'match', 'motif'):
+    if op in ('kmers', 'minimizers', 'match', 'motif', 'motif_real'):
         want = [max(len(r) - case['w'] + 1, 0) for r in case['rows']]
         if [len(r) for r in o['out']] != want:
             return 'row-lengths'
